@@ -33,6 +33,7 @@ def mpi (s : Stack) : Bool × Option Nat × List (Eventgroup × Addr) × List (A
 @[simp] theorem mpi_with_draws (s : Stack) (x : List Nat) : mpi { s with draws := x } = mpi s := rfl
 @[simp] theorem mpi_with_storeLog (s : Stack) (x : List (Bool × SvcKey × Addr)) : mpi { s with storeLog := x } = mpi s := rfl
 @[simp] theorem mpi_with_refreshLog (s : Stack) (x : List (Addr × SvcKey × Nat × Nat)) : mpi { s with refreshLog := x } = mpi s := rfl
+@[simp] theorem mpi_with_armLog (s : Stack) (x : List (Cb × Nat × Nat)) : mpi { s with armLog := x } = mpi s := rfl
 @[simp] theorem mpi_with_found_refreshLog (s : Stack) (x : TStore SvcKey) (y : List (Addr × SvcKey × Nat × Nat)) : mpi { s with found := x, refreshLog := y } = mpi s := rfl
 @[simp] theorem mpi_with_found (s : Stack) (x : TStore SvcKey) : mpi { s with found := x } = mpi s := rfl
 @[simp] theorem mpi_with_found_storeLog (s : Stack) (x : TStore SvcKey) (y : List (Bool × SvcKey × Addr)) : mpi { s with found := x, storeLog := y } = mpi s := rfl
